@@ -16,7 +16,7 @@ func init() {
 		Decided: "C19.a no function on the request path stores, map-updates, appends in place or copies into a shared object (Container, WebService, Route, CORS configuration, ...), a package-level variable or a variable captured from configuration-time code, unless the base is a request-local copy; " +
 			"C19.b NewRequest/NewResponse build fresh objects with fresh maps and no per-request object (Request, Response, FilterChain, their maps) is ever stored into a shared-type field or a global; C19.c selected routes are per-request copies; " +
 			"C19.d everything controlled by the trace flag only logs (no return, no store, nothing computed there is used afterwards); C19.e no result-affecting nondeterminism source on the request path (map iteration order, multi-way select, time, math/rand); " +
-			"C19.f the package-level configuration variables read on the request path are written only by configuration code. C19.g = C13.a (pooled objects are used exclusively between acquire and release). C19.h = C16.g (pooled byte containers are empty on reuse). C19.i a struct of the module that goes through a sync.Pool has every field overwritten before each Put or after each Get. C19.j every call through traceLogger is controlled by the trace flag.",
+			"C19.f the package-level configuration variables read on the request path are written only by configuration code. C19.g = C13.a (pooled objects are used exclusively between acquire and release). C19.h = C16.g (pooled byte containers are empty on reuse). C19.i a struct of the module that goes through a sync.Pool has every field overwritten before each Put or after each Get. C19.j every call through traceLogger is controlled by the trace flag. C19.k = C04.b (a parameter map is made per call).",
 		NotDecided:  "byte-equality of responses (a runtime comparison); races inside user callbacks; net/http's own state; caches inside the compressor providers (their content is unobservable given C13.b).",
 		Assumptions: []string{"objects of external types reached on the request path (http.Request, bytes.Buffer, http.Header of this request/response) are per request"},
 		Rules: []Rule{
@@ -146,6 +146,10 @@ func effectRule(c *Ctx, fns []*ssa.Function) {
 			case "(*sync.Map).Store", "(*sync.Map).LoadOrStore", "(*sync.Map).Delete", "(*sync/atomic.Value).Store":
 				if calleeName(cc) == "(*sync/atomic.Value).Store" && p.keptCopyWrite(cc.Args[0], cc.Args[1]) {
 					c.ok(name, shortCallee(cc), p.ipos(i), "a copy of the registration state that every function changing the registration keeps in step (C11.l), computed from that state alone")
+					return
+				}
+				if strings.HasPrefix(calleeName(cc), "(*sync.Map).") && p.pureSyncMap(cc.Args[0]) {
+					c.ok(name, shortCallee(cc), p.ipos(i), "a package-level memo table: every entry is a pure function of its key, nothing is deleted; a second computation stores an equal value")
 					return
 				}
 				c.bad(name, shortCallee(cc), p.ipos(i), "request-path code writes a synchronised cache: state shared between requests")
